@@ -113,7 +113,7 @@ Inductive cstate := Gone | Outer | Inner (s : sid).
 Record client := { cst : cstate; smode : bool (* session mode *) }.
 
 Record state := {
-  conns : list (sid * conn);     (* live server connections; idle ones are taken from the front (LIFO) *)
+  conns : list (sid * conn);     (* live server connections, most recently updated first *)
   clients : list (cid * client);
   maxc : nat;                    (* pool_size *)
   next : sid
@@ -150,7 +150,10 @@ Definition drop_conn (st : state) (s : sid) : state :=
 (** pool.get + bb8: an idle connection, else a new one below max_size, else (after
     connect_timeout) an error. *)
 Definition checkout (st : state) (c : cid) : option (state * sid * list event) :=
-  match first_idle (conns st) with
+  (* general.server_round_robin defaults to true => bb8 QueueStrategy::Fifo: the connection
+     that has been idle longest is handed out.  Returned connections are put at the front of
+     [conns], so the longest-idle one is the LAST idle entry. *)
+  match first_idle (rev (conns st)) with
   | Some s =>
       match get s (conns st) with
       | Some k => Some (set_conn st s {| truth := truth k; belief := belief k; loc := Held c |}, s, [CheckedOut s c (truth k)])
